@@ -269,7 +269,7 @@ var sims = map[string]sim.SimFunc{
 		tcpsim.Run(c, tcpsim.RunCfg{Strong: true, Bidir: true, Gen: tcpsim.GenCfg{MaxConns: 3, AllowNoEnd: true, AllowRST: true, SynData: true}}, mkWith(true, false))
 	},
 	"c11r": func(c *sim.Ctx) {
-		tcpsim.Run(c, tcpsim.RunCfg{Lifecycle: true, Bidir: true, Gen: tcpsim.GenCfg{MaxConns: 8, AllowNoEnd: true, AllowRST: true, CloseFlush: true, Reopen: true, BackJumps: true, Short: true, SynData: true}}, mkWith(true, true))
+		tcpsim.Run(c, tcpsim.RunCfg{Lifecycle: true, Bidir: true, Gen: tcpsim.GenCfg{MaxConns: 8, AllowNoEnd: true, AllowRST: true, CloseFlush: true, Reopen: true, BackJumps: true, Short: true, SynData: true, Wide: true}}, mkWith(true, true))
 	},
 }
 
